@@ -1,8 +1,8 @@
 SPECIFICATION Spec
 CONSTANTS
-  N = 3
+  N = 2
   Refs = {"a", "b"}
-  MaxDepth = 4
+  MaxDepth = 7
   MaxPacks = 2
   WithCopies = TRUE
   WithIdx = FALSE
@@ -15,7 +15,7 @@ CONSTANTS
   ProvidersAgree = TRUE
   DeleteDropsPacked = TRUE
   CgHonoursShallow = TRUE
-  Focus = "all"
+  Focus = "refs"
 INVARIANT TypeOK
 INVARIANT Transparent
 INVARIANT Exact
